@@ -42,6 +42,10 @@ def plan(tier, ctx):
     for (n, ao) in fixed:
         qs.append(P.fixed_query("C02", n, ao, True, core=False, witness=(not quick and (n, ao) == (2, 3)),
                                 timeout=(600 if quick else 2400), mem_gb=(None if quick else 24)))
+    # (f) (lead) engine C: the assembly decoders lifted to C, valid blocks ("every decode-kernel variant gives the same result")
+    if not quick:
+        for v in ("04", "01"):
+            qs.append(P.asmdec_query(v, 1, 0, 3, True, unwind=4, timeout=2400, mem_gb=16))
     return Plan("C02", "model_checking", qs,
                 functions_encoded=P.FUNCS, bounds=P.bounds(True), stubs=P.STUBS,
                 assumptions=P.ASSUMPTIONS + ["flavour: the reference decoder accepts the input (well-formed stream / block)"],
